@@ -97,6 +97,7 @@ pub struct Stats {
     pub conc_programs: u64,
     pub conc_executions: u64,
     pub conc_points: u64,
+    pub conc_incomplete: u64,
 }
 
 fn kind(r: &Rpc) -> &'static str {
@@ -243,6 +244,8 @@ fn check_conc(setup: &[Rpc], conc: &[Rpc], bound: usize, st: &mut Stats) {
         },
         |res, srv, choices| {
             if res.outcome != Outcome::Completed {
+                // deadlock freedom is C08's verdict; counted and reported in the evidence
+                st.conc_incomplete += 1;
                 return true;
             }
             let live = live_docs_for_tenant(&srv, 7);
@@ -299,7 +302,7 @@ pub fn worker(wi: usize, wn: usize, tier: &str) {
         check_conc(setup, conc, bound, &mut st);
     }
     vcore::par::worker_emit(&json!({"sequences":st.sequences,"steps":st.steps,"at_limit":st.at_limit_steps,"refused":st.refused_at_limit,"states":st.states.iter().collect::<Vec<_>>(),
-        "shapes":shapes,"conc_programs":st.conc_programs,"conc_executions":st.conc_executions,"conc_points":st.conc_points,"violations":st.viol.to_json()}));
+        "shapes":shapes,"conc_programs":st.conc_programs,"conc_executions":st.conc_executions,"conc_points":st.conc_points,"conc_incomplete":st.conc_incomplete,"violations":st.viol.to_json()}));
 }
 
 pub fn run(tier: &str, replay: Option<&str>) -> i32 {
@@ -336,7 +339,7 @@ pub fn run(tier: &str, replay: Option<&str>) -> i32 {
     let mut tot: BTreeMap<&str, u64> = BTreeMap::new();
     let mut states: BTreeSet<u64> = BTreeSet::new();
     for r in &res {
-        for k in ["sequences", "steps", "at_limit", "refused", "shapes", "conc_programs", "conc_executions", "conc_points"] {
+        for k in ["sequences", "steps", "at_limit", "refused", "shapes", "conc_incomplete", "conc_programs", "conc_executions", "conc_points"] {
             *tot.entry(k).or_insert(0) += r[k].as_u64().unwrap_or(0);
         }
         for s in r["states"].as_array().unwrap() {
@@ -358,6 +361,7 @@ pub fn run(tier: &str, replay: Option<&str>) -> i32 {
     ev.set("inserts_refused_at_limit", tot["refused"]);
     ev.set("request_shape_sequences", tot["shapes"]);
     ev.set("concurrent_programs", tot["conc_programs"]);
+    ev.set("concurrent_executions_not_completed", tot["conc_incomplete"]);
     ev.set("concurrent_executions", tot["conc_executions"]);
     ev.assume("Restart = TieredEngine::recover + a transcription of main()'s start-up recount (cold ids_for_metadata_filter(Exact __tenant_idx__) + hot-tier scan); main() itself is only reachable through the real binary");
     ev.assume("under the scheduler unary handlers run to completion with now_or_never (they contain no suspending await)");
